@@ -222,32 +222,46 @@ def offW (large : Bool) : Nat := if large then 8 else 4
 
 def isCont (b : Nat) : Bool := 0x80 ≤ b && b ≤ 0xBF
 
+/-- constraint on the second byte of a 3-byte sequence (no overlongs, no surrogates) -/
+def snd3Ok (b0 b1 : Nat) : Bool :=
+  if b0 = 0xE0 then decide (0xA0 ≤ b1 ∧ b1 ≤ 0xBF)
+  else if b0 = 0xED then decide (0x80 ≤ b1 ∧ b1 ≤ 0x9F)
+  else isCont b1
+
+/-- constraint on the second byte of a 4-byte sequence (no overlongs, nothing above U+10FFFF) -/
+def snd4Ok (b0 b1 : Nat) : Bool :=
+  if b0 = 0xF0 then decide (0x90 ≤ b1 ∧ b1 ≤ 0xBF)
+  else if b0 = 0xF4 then decide (0x80 ≤ b1 ∧ b1 ≤ 0x8F)
+  else isCont b1
+
+/-- length of the well-formed UTF-8 byte sequence at the head of `bs` (table 3-7), if any -/
+def utf8CharLen : List Nat → Option Nat
+  | [] => none
+  | b0 :: rest =>
+    if b0 ≤ 0x7F then some 1
+    else if 0xC2 ≤ b0 ∧ b0 ≤ 0xDF then
+      match rest with
+      | b1 :: _ => if isCont b1 then some 2 else none
+      | _ => none
+    else if 0xE0 ≤ b0 ∧ b0 ≤ 0xEF then
+      match rest with
+      | b1 :: b2 :: _ => if snd3Ok b0 b1 && isCont b2 then some 3 else none
+      | _ => none
+    else if 0xF0 ≤ b0 ∧ b0 ≤ 0xF4 then
+      match rest with
+      | b1 :: b2 :: b3 :: _ => if snd4Ok b0 b1 && isCont b2 && isCont b3 then some 4 else none
+      | _ => none
+    else none
+
 /-- `utf8Valid bs` ⇔ `bs` is a concatenation of well-formed UTF-8 byte sequences
 (no overlongs, no surrogates, nothing above U+10FFFF).  The fuel is the list length. -/
 def utf8ValidAux : Nat → List Nat → Bool
   | _, [] => true
-  | 0, _ => false
-  | f + 1, b0 :: rest =>
-    if b0 ≤ 0x7F then utf8ValidAux f rest
-    else if 0xC2 ≤ b0 ∧ b0 ≤ 0xDF then
-      match rest with
-      | b1 :: r => isCont b1 && utf8ValidAux f r
-      | _ => false
-    else if 0xE0 ≤ b0 ∧ b0 ≤ 0xEF then
-      match rest with
-      | b1 :: b2 :: r =>
-        (if b0 = 0xE0 then decide (0xA0 ≤ b1 ∧ b1 ≤ 0xBF)
-         else if b0 = 0xED then decide (0x80 ≤ b1 ∧ b1 ≤ 0x9F)
-         else isCont b1) && isCont b2 && utf8ValidAux f r
-      | _ => false
-    else if 0xF0 ≤ b0 ∧ b0 ≤ 0xF4 then
-      match rest with
-      | b1 :: b2 :: b3 :: r =>
-        (if b0 = 0xF0 then decide (0x90 ≤ b1 ∧ b1 ≤ 0xBF)
-         else if b0 = 0xF4 then decide (0x80 ≤ b1 ∧ b1 ≤ 0x8F)
-         else isCont b1) && isCont b2 && isCont b3 && utf8ValidAux f r
-      | _ => false
-    else false
+  | 0, _ :: _ => false
+  | f + 1, b :: bs =>
+    match utf8CharLen (b :: bs) with
+    | some k => utf8ValidAux f ((b :: bs).drop k)
+    | none => false
 
 def utf8Valid (bs : List Nat) : Bool := utf8ValidAux bs.length bs
 
